@@ -278,7 +278,8 @@ func (this *LedgerStoreImp) recoverStore() error {
 	if err != nil {
 		return fmt.Errorf("stateStore.GetCurrentBlock error %s", err)
 	}
-	for i := stateHeight; i < blockHeight; i++ {
+	// the state store holds blocks 0..stateHeight: replay stateHeight+1..blockHeight
+	for i := stateHeight + 1; i <= blockHeight; i++ {
 		blockHash, err := this.blockStore.GetBlockHash(i)
 		if err != nil {
 			return fmt.Errorf("blockStore.GetBlockHash height:%d error:%s", i, err)
